@@ -103,7 +103,7 @@ def run(module: str, cfg: str, *, workers: int | str = "auto", timeout: int = 60
             f.write(cfg)
     else:
         cfg_path = cfg if os.path.isabs(cfg) else os.path.join(specdir, cfg)
-    cmd = ["java", "-XX:+UseParallelGC", f"-Xmx{heap}", f"-DTLA-Library={env.SPEC}", "-cp", JAVA_CP, "tlc2.TLC",
+    cmd = ["java", "-XX:+UseParallelGC", f"-Xmx{heap}", f"-DTLA-Library={env.SPEC}{os.pathsep}{os.path.join(env.SPEC, 'proofs')}", "-cp", JAVA_CP, "tlc2.TLC",
            "-workers", str(workers), "-metadir", os.path.join(work, "meta"), "-noGenerateSpecTE",
            "-config", cfg_path]
     if coverage:
